@@ -47,7 +47,14 @@ def main():
                     configs.append({"rep": rk, "alg": alg, "grammar": gname, "seed": R.randint(0, 10 ** 6), "init": init,
                                     "evals": 40 if alg == "GP" else 25, "pop": 8, "decider": R.choice(["grow", "pt", "pigrow"]),
                                     "minimize": R.random() < 0.5})
-    configs = [c for c in configs if c]
+    # crossover-heavy GP steps and caller-supplied trackers, for every representation
+    for rk in reps:
+        for gname in (["nested"] if quick else ["nested", "arith", "mutual"]):
+            configs.append({"rep": rk, "alg": "GP", "grammar": gname, "seed": R.randint(0, 10 ** 6), "init": "standard", "step": "xo",
+                            "evals": 60, "pop": 8, "decider": "grow", "minimize": R.random() < 0.5, "own_tracker": R.random() < 0.5})
+    for alg in ["GP", "HC", "RS", "OPO"]:
+        configs.append({"rep": R.choice(reps), "alg": alg, "grammar": "refined", "seed": R.randint(0, 10 ** 6), "init": "standard",
+                        "evals": 30, "pop": 8, "decider": "grow", "minimize": R.random() < 0.5, "own_tracker": True})
     envs = [(1, 0, 0), (2, 3, 1), (3, 11, 0)] if quick else [(1, 0, 0), (2, 3, 1), (3, 11, 0), (4, 1, 1), (5, 29, 0)]
     jobs = []
     for ci, cfg in enumerate(configs):
@@ -79,7 +86,7 @@ def main():
                     evs.append({"e": "eval", "run": rid, "where": where, "i": i + 1, "digest": dg(h), "fit": v})
                 evs.append({"e": "result", "run": rid, "where": where, "digest": dg(run["result"][0]), "fit": run["result"][1],
                             "n": len(run["evals"])})
-        batch.trace(f"{cfg['rep']}/{cfg['alg']}/{cfg['grammar']}/{cfg['init']}", evs,
+        batch.trace(f"{cfg['rep']}/{cfg['alg']}/{cfg['grammar']}/{cfg['init']}/{cfg.get('step', 'default')}/{int(bool(cfg.get('own_tracker')))}", evs,
                     {"k": "c08", "rep": cfg["rep"], "alg": cfg["alg"], "grammar": cfg["grammar"], "decider": cfg["decider"]})
         nev += len(evs)
     paths = batch.shards(a.out, a.shards)
